@@ -462,9 +462,8 @@ def load_kern(
         if parser.id not in [p.id for p in partlist]:
             partlist.append(part)
 
-    spt.assign_note_ids(
-        partlist, keep=(force_note_ids is True or force_note_ids == "keep")
-    )
+    # True: new ids, unique over the whole score; "keep": the ids made by the parser
+    spt.assign_note_ids(partlist, keep=(force_note_ids == "keep"))
 
     doc_name = get_document_name(filename)
     # Reverse the partlist to correct part order and visualization for exporting musicxml files
